@@ -237,4 +237,7 @@ func run(c *hlib.Ctx) {
 	each(n/2, func() { caseMeshLight(c) })
 	each(n/2, func() { caseJoinLights(c) })
 	each(1+n/100, func() { caseSelGrid(c) })
+	each(n/2, func() { caseNestedJoin(c) })
+	each(6+n/20, func() { caseNestedGrid(c) })
+	each(n/10, func() { caseNestedReal(c) })
 }
